@@ -457,6 +457,13 @@ def _alarm(signum, frame):
 
 
 def _worker_init(repo):
+    try:  # die with the parent: never leave orphaned workers behind
+        import ctypes
+        ctypes.CDLL("libc.so.6").prctl(1, signal.SIGKILL)
+        if os.getppid() == 1:
+            os._exit(0)
+    except Exception:
+        pass
     os.environ.setdefault("OMP_NUM_THREADS", "1")
     os.environ.setdefault("MKL_NUM_THREADS", "1")
     if sys.path[0] != repo:
@@ -503,6 +510,17 @@ def pool():
         _POOL = ProcessPoolExecutor(max_workers=NPROC, mp_context=ctx, initializer=_worker_init,
                                     initargs=(str(REPO),))
     return _POOL
+
+
+def shutdown_pool():
+    global _POOL
+    if _POOL is not None:
+        try:
+            for p in list(getattr(_POOL, "_processes", {}).values()):
+                p.kill()
+        except Exception:
+            pass
+        _POOL = None
 
 
 def run_impl(modname: str, fname: str, cases: list, case_timeout=120, chunksize=4):
